@@ -3,6 +3,7 @@ package props
 import (
 	"encoding/json"
 	"fmt"
+	"os"
 	"sort"
 	"strings"
 	"sync"
@@ -455,11 +456,26 @@ func C05(ctx *core.Ctx) error {
 			return core.Inconcl("catalogue: %v", err)
 		}
 	}
+	only := os.Getenv("VERIF_C05_ONLY") // development aid: substring filter on case ids; such a run is never a verdict
+	if only != "" {
+		var f []FaultCase
+		for _, c := range cases {
+			if strings.Contains(c.ID(), only) {
+				f = append(f, c)
+			}
+		}
+		cases = f
+		defer func() {
+			for _, c := range cases {
+				fmt.Println("case:", c.ID())
+			}
+		}()
+	}
 	var mcRes []tlc.Result
 	var mcNotes []string
 	var mcErr error
 	var wg sync.WaitGroup
-	if ctx.Replay == "" {
+	if ctx.Replay == "" && only == "" {
 		wg.Add(1)
 		go func() { defer wg.Done(); mcRes, mcNotes, mcErr = faultsMC(ctx) }()
 	}
@@ -518,6 +534,9 @@ func C05(ctx *core.Ctx) error {
 	cov.Set("alteration_reached", applied)
 	cov.Set("alteration_changed_content", changed)
 	cov.Set("cases_with_an_honest_error", detected)
+	if only != "" {
+		return core.Inconcl("filtered development run (VERIF_C05_ONLY=%s): %d cases, %d violations", only, len(cases), len(ctx.Violations()))
+	}
 	return ctx.WriteEvidence("fault_enumeration",
 		"one case = one real protocol run with one deviating participant: (protocol, deviating position, message type, field, list index class, alteration kind in {+1, random same size, value from another party's message, removed}) "+
 			"applied to the wire bytes through protobuf reflection, plus whole-message mirror, wrong secret input, duplicated pre-parameters; non-trivial = the alteration changed the content; "+
